@@ -116,12 +116,16 @@ var sharedRules = map[string][]struct{ as, from, rule, why string }{
 		{"C13-S4", "C09", "C09-R5", "the tombstone of a cleanly ended session must reach the survivors"},
 		{"C13-S5", "C09", "C09-R1", "a tombstone that stays local lets survivors publish the will of a session that ended cleanly"},
 		{"C13-S6", "C20", "C20-R3", "two teardowns of one session must not both pass the registry test"},
+		{"C13-S7", "C09", "C09-R2", "the tombstone of a cleanly ended session must be what is broadcast: survivors that still see the session as live publish its will when its node fails"},
 	},
 	"C14": {
 		{"C14-S1", "C08", "C08-R3", "destinations are computed from the replicated subscriptions"},
 		{"C14-S2", "C08", "C08-R3b", "batches of subscriptions are merged entry by entry"},
 		{"C14-S3", "C02", "C02-R1", "a failed destination withholds the acknowledgement"},
 		{"C14-S4", "C02", "C02-R8", "the hosting node must still hold what it has not yet written to its sessions"},
+	},
+	"C15": {
+		{"C15-S1", "C02", "C02-R7", "a look-up in the log must not move the cursor the consumer reads from: entries would be skipped or handed over twice"},
 	},
 	"C17": {
 		{"C17-S1", "C13", "C13-R3", "the will is published under the topic captured inside the session's mount point"},
